@@ -384,6 +384,22 @@ def _run_case(case):
             else:
                 w.add_processor(obj)
             del obj
+        # ---- the program looks its handlers up in the world (and keeps
+        # nothing of what it is told): answering must not make the world
+        # hold on to them
+        if owner != 'bare' and case['hashes'][0] % 2 == 0:
+            for cls in set(classes) | {object}:
+                if owner == 'comp':
+                    len(w.get(cls))
+                    for e in entity_of.values():
+                        w.get_component(e, cls)
+                        w.has_component(e, cls)
+                elif cls is not object:
+                    w.get_processor(cls)
+            len(w.processors)
+            for e in entity_of.values():
+                len(w.get_components(e))
+            res.stats['world_queries_before_the_drop'] += 1
         # ---- faults between operations
         state['token'] = 0
         for spec in between:
